@@ -324,3 +324,57 @@ fn fused_reader_contract() {
 	kani::cover!(seen_eof && bl > 0);
 	kani::cover!(!seen_eof && bl > 0);
 }
+
+// ---- detection drives the handle: every trial gets a freshly rewound borrow --------------------------
+// (lives here rather than in detect.rs because it inspects CaptureReader's private cursor; the trials do
+// not read through Box<dyn Read> -- they check the cursor and then move it, as a real trial's reads would)
+
+static mut TRIAL_OUTCOME: [u8; 4] = [0; 4];
+static mut TRIALS_RUN: u8 = 0;
+static mut REWOUND_OK: bool = true;
+static mut STREAM_OK: bool = true;
+static mut EXPECT_LEN: usize = 0;
+
+fn trial_stub(i: usize, r: Ref) -> io::Result<bool> {
+	unsafe {
+		TRIALS_RUN += 1;
+		match r {
+			Ref::Slice(b) => { if b.len() != EXPECT_LEN { STREAM_OK = false; } }
+			Ref::Reader(rd) => {
+				if rd.prefix.position() != 0 { REWOUND_OK = false; }
+				if rd.prefix.get_ref().len() != EXPECT_LEN { STREAM_OK = false; }
+				// the trial consumes some of the captured bytes
+				let k: usize = kani::any();
+				kani::assume(k <= rd.prefix.get_ref().len());
+				rd.prefix.set_position(k as u64);
+			}
+		}
+		match TRIAL_OUTCOME[i] { 0 => Ok(false), 1 => Ok(true), _ => Err(io::ErrorKind::ConnectionReset.into()) }
+	}
+}
+fn mp_trial(r: Ref) -> io::Result<bool> { trial_stub(0, r) }
+fn js_trial(r: Ref) -> io::Result<bool> { trial_stub(1, r) }
+fn ym_trial(r: Ref) -> io::Result<bool> { trial_stub(2, r) }
+fn tm_trial(r: Ref) -> io::Result<bool> { trial_stub(3, r) }
+
+/// detect_format on a reader-backed handle in ANY valid state, every combination of trial outcomes, each
+/// trial moving the cursor by any amount: every trial starts at byte 0 of the stream and sees the whole capture.
+#[kani::proof]
+#[kani::unwind(6)]
+#[kani::stub(crate::msgpack::input_matches, mp_trial)]
+#[kani::stub(crate::json::input_matches, js_trial)]
+#[kani::stub(crate::yaml::input_matches, ym_trial)]
+#[kani::stub(crate::toml::input_matches, tm_trial)]
+fn detect_trials_get_rewound_reader() {
+	let (mut h, _data, _len, off, _eof) = any_handle::<4>();
+	let o: [u8; 4] = kani::any();
+	kani::assume(o[0] < 3 && o[1] < 3 && o[2] < 3 && o[3] < 3);
+	unsafe { TRIAL_OUTCOME = o; EXPECT_LEN = off; }
+	let r = crate::detect::detect_format(&mut h);
+	assert!(unsafe { REWOUND_OK }, "a detection trial did not start at byte 0 of the stream");
+	assert!(unsafe { STREAM_OK }, "a detection trial did not see the whole capture");
+	kani::cover!(unsafe { TRIALS_RUN } == 4 && matches!(r, Ok(None)), "all four trials ran");
+	std::mem::forget(r);
+	// after detection the handle still rewinds for the translator
+	match h.borrow_mut() { Ref::Reader(rd) => assert!(rd.prefix.position() == 0), Ref::Slice(b) => assert!(b.len() == off) }
+}
